@@ -197,16 +197,15 @@ def key_depth(k) -> int:
 class Concrete:
     """Concrete spelling of one abstract mailbox and of programs asked in it."""
 
-    def __init__(self, mbox, rng: random.Random, backend: str = 'dict'):
+    def __init__(self, mbox, rng: random.Random, backend: str = 'dict',
+                 size_fix: dict | None = None):
         self.mbox = mbox
         self.rng = rng
+        self.size_fix = size_fix or {}   # uid -> octets the store adds to what it holds
         # dict numbers a fresh INBOX from 101, maildir from 1; maildir stores
         # LF line ends and reports that size (C03), which SEARCH must agree with
         self.first_uid = 101 if backend == 'dict' else 1
         self.eol = 2 if backend == 'dict' else 1
-        # (maildir: RFC822.SIZE of a message with folded header lines is not the
-        # stored size either, so no exact size can be arranged: no folding there)
-        self.fold = backend == 'dict'
         self.tok = dict(zip(('t1', 't2'), rng.choice(TOKEN_POOL)))
         self.base = rng.choice(BASES)
         self.messages: dict[int, bytes] = {}      # uid -> literal
@@ -290,12 +289,12 @@ class Concrete:
                 if pad:
                     items.append('filler@example.test')
                 rng.shuffle(items)
-                sep = rng.choice([', ', ',\r\n ', ',\r\n\t'] if self.fold else [', '])
+                sep = rng.choice([', ', ',\r\n ', ',\r\n\t'])
                 out.append(f'{name}: ' + sep.join(items))
             elif f == 'Subject':
                 items = [self.case(self.tok[t]) for t in toks] + (['pad'] if pad else [])
                 rng.shuffle(items)
-                sep = rng.choice([' ', ' ', '\r\n '] if self.fold else [' '])
+                sep = rng.choice([' ', ' ', '\r\n '])
                 out.append(f'{name}: ' + sep.join(items))
             else:
                 items = [self.case(self.tok[t]) for t in toks] + (['pad'] if pad else [])
@@ -335,7 +334,7 @@ class Concrete:
         if not toks:
             blines.append('nothing to see')
         rng.shuffle(blines)
-        target = SIZE0 + m['size']
+        target = SIZE0 + m['size'] - self.size_fix.get(m['uid'], 0)
         multipart = bool(toks) and rng.random() < 0.2
 
         def assemble(padlines):
@@ -520,7 +519,7 @@ class Concrete:
 
 
 class PreconditionFailed(Exception):
-    pass
+    size_delta: dict | None = None     # only the sizes are off: uid -> reported - wanted
 
 
 class Server:
@@ -600,14 +599,20 @@ def run_build(srv: Server, conc: Concrete, script) -> None:
                     got[r.num] = r.data
             if sorted(got) != list(range(1, len(mbox) + 1)):
                 raise PreconditionFailed(f'view has positions {sorted(got)}')
+            delta = {}
             for p, m in enumerate(mbox, 1):
                 d = got[p]
                 want_flags = {(SYSFLAG[f] if f in SYSFLAG else KW[f]) for f in m['flags']}
-                if d.get(b'UID') != m['uid'] or set(d.get(b'FLAGS', [])) != want_flags \
-                        or d.get(b'RFC822.SIZE') != SIZE0 + m['size']:
+                if d.get(b'UID') != m['uid'] or set(d.get(b'FLAGS', [])) != want_flags:
                     raise PreconditionFailed(
                         f'message {p}: have {d}, want uid {m["uid"]} flags '
                         f'{sorted(want_flags)} size {SIZE0 + m["size"]}')
+                if d.get(b'RFC822.SIZE') != SIZE0 + m['size']:
+                    delta[m['uid']] = d.get(b'RFC822.SIZE', 0) - (SIZE0 + m['size'])
+            if delta:
+                exc = PreconditionFailed(f'sizes reported differ from the sizes arranged: {delta}')
+                exc.size_delta = delta
+                raise exc
         if line == b'SELECT INBOX' and sess == 'a' and not mbox:
             pass
 
@@ -679,10 +684,31 @@ def jsonable(v):
     return v
 
 
+def make_concrete(mbox, rng, backend: str) -> Concrete:
+    """On maildir RFC822.SIZE is not always the size of what is stored (header
+    lines are refolded on loading: C03's business).  SEARCH has to agree with
+    the size the server reports, so a trial build measures the difference and
+    the padding is corrected by it (same content otherwise)."""
+    cseed = rng.getrandbits(64)
+    conc = Concrete(mbox, random.Random(cseed), backend)
+    if backend != 'dict' and mbox:
+        srv = Server(backend)
+        try:
+            run_build(srv, conc, conc.build_script())
+        except PreconditionFailed as exc:
+            if not exc.size_delta:
+                raise
+            fix = {u: d + conc.size_fix.get(u, 0) for u, d in exc.size_delta.items()}
+            conc = Concrete(mbox, random.Random(cseed), backend, fix)
+        finally:
+            srv.close()
+    return conc
+
+
 def execute_mailbox(run: Run, stats: dict, mbid, mbox, triples, rng, corrupt=None,
                     backend: str = 'dict'):
     """Build the view (as often as needed) and ask every program."""
-    conc = Concrete(mbox, rng, backend)
+    conc = make_concrete(mbox, rng, backend)
     script = conc.build_script()
     hidden = any(m['hidden'] for m in mbox)
     chunks = ([triples[i:i + HIDDEN_CHUNK] for i in range(0, len(triples), HIDDEN_CHUNK)]
@@ -784,7 +810,7 @@ def late_arrival(run: Run, stats: dict, mbid, mbox, triples, rng,
     if not cands:
         return
     tr = rng.choice(cands)
-    conc = Concrete(mbox, rng, backend)
+    conc = make_concrete(mbox, rng, backend)
     script = conc.build_script()
     ideal = max(tr['exp']['seq']['alts'], key=len)
     uid = mbox[rng.choice(sorted(ideal)) - 1]['uid']
